@@ -241,3 +241,32 @@ add_lineage_child = REG.add(Contract(
     loop_ghost={1: [], 2: [], 3: ["merged"]},
     local_sorts={"configs": "V"},
 ))
+
+
+# --------------------------------------------------------------------------------------
+# DataKey._run_id: the storage key of a superrun depends on its whole definition (C02, C14)
+# --------------------------------------------------------------------------------------
+def _dk_hash(eng, args, kw, st, fr, k, node):
+    selfv = eng.to_v(st.env["self"])
+    arg = args[0]
+    ok = (isinstance(arg, tuple) and len(arg) == 2 and z3.And(
+        eng.to_v(arg[0]) == z3.Function("attr_subruns", V, V)(selfv),
+        eng.to_v(arg[1]) == z3.Function("attr_combining", V, V)(selfv)))
+    eng.oblige("key", "the key of a superrun hashes its complete definition - the sub_run_spec (run ids AND the part selected of each) and "
+                      "the combining flag - so that a redefined superrun never matches data stored for the old definition", st,
+               ok if ok is not False else z3.BoolVal(False), node)
+    g = dict(st.ghost)
+    g["hashed"] = z3.BoolVal(True)
+    return k(Opq(z3.Function("fn:deterministic_hash", V, V)(eng.to_v(list(arg)) if isinstance(arg, tuple) else eng.to_v(arg))),
+             St(st.env, st.heap, st.pc, g))
+
+
+datakey_run_id = REG.add(Contract(
+    "strax/storage/common.py", "DataKey._run_id",
+    params=dict(self="V"),
+    ensures=lambda S, a, r: [("a superrun's key carries the hash of its definition (and only a superrun's)",
+                              S.Iff(a.ghost.hashed, S.truthy(S.attr(a.self, "is_superrun"))))],
+    raises={},
+    ghost={"hashed": z3.BoolVal(False)},
+    calls={"strax.deterministic_hash": _dk_hash},
+))
